@@ -53,7 +53,8 @@ HighSourceSets == {
 \* from_debug as the source (C02 names it): filter chains over a generated pyramid; two tile formats
 DebugBases == { [op |-> "debug", format |-> "pbf"], [op |-> "debug", format |-> "png"] }
 DebugChains1 == { Wrap(f, b) : f \in Filters, b \in DebugBases }
-DebugPrograms == DebugChains1 \cup { Wrap([op |-> "zoom", min |-> a, max |-> 3], t) : a \in {-1, 2}, t \in { x \in DebugChains1 : x.op = "bbox" } }
+DebugPrograms == DebugBases \cup { [op |-> "overlay", srcs |-> << [op |-> "debug", format |-> "pbf"], [op |-> "debug", format |-> "pbf"] >>] }
+                 \cup DebugChains1 \cup { Wrap([op |-> "zoom", min |-> a, max |-> 3], t) : a \in {-1, 2}, t \in { x \in DebugChains1 : x.op = "bbox" } }
 
 CovList(tiles) ==
     LET ls == SetToSeq(Levels(tiles)) IN
